@@ -387,7 +387,7 @@ func init() {
 				}
 			}
 			// (j) names of the input files: non-ASCII, spaces, long, named directly and through a glob, valid and invalid content
-			for _, base := range []string{"a", "é", "語", "😀", "a b", "x-", "%d%s", "конфигурация-контейнера", "q\u0301", "\xff\xfe"} {
+			for _, base := range []string{"a", "é", "語", "😀", "a b", "x-", "%d%s", "конфигурация-контейнера", "q\u0301", "\xff\xfe", "a,b", "x=y;z", "it's", "{a}", "[a]*"} {
 				for _, rep := range []int{1, 2, 4, 9, 20, 60} {
 					name := strings.Repeat(base, rep)
 					if len(name) > 240 {
